@@ -159,7 +159,7 @@ def parse(
                 name, parameters = process_parameters(branches[0])
                 if len(branches) > 1:
                     # It's got a body, so it's a function definition
-                    body = parse(branches[-1], structure_cls)
+                    body = parse(branches[-1], structure.FunctionDef)
                     structures.append(
                         structure.FunctionDef(name, parameters, body)
                     )
@@ -187,17 +187,17 @@ def parse(
 
             elif structure_cls == structure.LambdaMap:
                 structures.append(
-                    structure.LambdaMap(parse(branches[0], structure_cls))
+                    structure.LambdaMap(parse(branches[0], structure.Lambda))
                 )
 
             elif structure_cls == structure.LambdaFilter:
                 structures.append(
-                    structure.LambdaFilter(parse(branches[0], structure_cls))
+                    structure.LambdaFilter(parse(branches[0], structure.Lambda))
                 )
 
             elif structure_cls == structure.LambdaSort:
                 structures.append(
-                    structure.LambdaSort(parse(branches[0], structure_cls))
+                    structure.LambdaSort(parse(branches[0], structure.Lambda))
                 )
 
             else:
